@@ -337,14 +337,60 @@ def plan_c01(prop, tier, seed, t0):
             s["meta"]["light"] = True
             out.append(s)
         return out
-    return core_check(prop, tier, seed, t0, over, explore=[("mixed", 48, 1500), ("data", 24, 1500)], caps=(16, 1, 2),
-                      extra_scenarios=extra, thorough={"mc": dict(MaxOps=7, MaxMsgs=3)}, turns=True)
+    # ... and requests abandoned at every suspension point (a message picked for a consumer that has
+    # gone, a publish whose caller went away) must not lose anything either
+    return core_check(prop, tier, seed, t0, over, explore=[("mixed", 48, 1500), ("data", 24, 1500), ("consumers", 24, 1500)], caps=(16, 1, 2),
+                      extra_scenarios=lambda quick, sd: extra(quick, sd)
+                      + cancel_scenarios(sd, kinds={"Pull", "Ack", "ModAck", "ModAck30", "Publish"}, quick=quick),
+                      thorough={"mc": dict(MaxOps=7, MaxMsgs=3)}, turns=True)
 
 
 def plan_c02(prop, tier, seed, t0):
     over = dict(AckRefs={1, 2, 99}, ModSecs={0}, Advances={1, 2}, MaxOps=6, MaxNow=6)
     return core_check(prop, tier, seed, t0, over, explore=[("data", 48, 1500)],
+                      extra_scenarios=lambda quick, sd: stream_ctrl_scenarios(sd, quick),
                       thorough={"mc": dict(MaxOps=7, MaxMsgs=3, AckRefs={1, 2, 3, 99})})
+
+
+def stream_ctrl_scenarios(seed, quick):
+    """Control messages of every shape on an open StreamingPull: empty (keep-alive), acks only,
+    modifications only, both in one message, several in a row; after each the server comes to rest
+    (`quiet`: everything sent must have been carried out) and time passes across the original and
+    the extended deadlines (what was extended must not come back, what was not must)."""
+    out = []
+    Q = {"do": "quiet"}
+    shapes = [
+        ("keepalive-ack", [dict(), dict(acks=[{"d": 1}])]),
+        ("keepalive-nack", [dict(), dict(), dict(mods=[[{"d": 1}, 0]])]),
+        ("ack+extend", [dict(acks=[{"d": 1}], mods=[[{"d": 2}, 60]])]),
+        ("ack+nack", [dict(acks=[{"d": 2}], mods=[[{"d": 1}, 0]])]),
+        ("extend+ack-same", [dict(acks=[{"d": 3}], mods=[[{"d": 3}, 30], [{"d": 1}, 45]])]),
+        ("extend-then-ack", [dict(mods=[[{"d": 1}, 30], [{"d": 2}, 20]]), dict(acks=[{"d": 1}]), dict()]),
+        ("ack-then-keepalive-then-extend", [dict(acks=[{"d": 1}]), dict(), dict(mods=[[{"d": 2}, 25]]), dict(), dict(acks=[{"d": 3}])]),
+        ("stale+live", [dict(acks=[{"lit": "77"}, {"d": 2}], mods=[[{"lit": "78"}, 30], [{"d": 1}, 30]])]),
+    ]
+    for k, (name, msgs) in enumerate(shapes):
+        for cap in ((16, 1) if quick else (16, 1, 2)):
+            for gap in ((0,) if quick else (0, 1, 3)):
+                steps = [call(1, op="CreateTopic", name=T1), call(1, op="CreateSub", name=S1, topic=T1, ack=10),
+                         {"do": "sopen", "h": "s", "c": 2, "sub": S1, "max": 10}, {"do": "settle"},
+                         call(1, op="Publish", topic=T1, msgs=[{"p": "sc%d-a" % k}, {"p": "sc%d-b" % k}, {"p": "sc%d-c" % k}]),
+                         {"do": "settle"}, Q]
+                for m in msgs:
+                    step = {"do": "ssend", "h": "s"}
+                    step.update(m)
+                    steps.append(step)
+                    if gap:
+                        steps.append({"do": "yield", "n": gap})
+                    else:
+                        steps += [{"do": "settle"}, Q]
+                steps += [{"do": "settle"}, Q,
+                          # across the original deadline (10 s), then across every extension used above
+                          {"do": "advance", "ms": 10300}, Q, call(3, op="Pull", sub=S1, max=10, ri=True),
+                          {"do": "advance", "ms": 15000}, Q, {"do": "advance", "ms": 40000}, Q,
+                          {"do": "sabandon", "h": "s"}, {"do": "drain", "c": 9}]
+                out.append(scn("sctrl-%s-cap%d-g%d" % (name, cap, gap), steps, seed=seed * 100 + k, cap=cap))
+    return out
 
 
 def plan_c03(prop, tier, seed, t0):
@@ -352,7 +398,8 @@ def plan_c03(prop, tier, seed, t0):
                 OpKinds={"CreateTopic", "CreateSub", "Publish", "Pull", "PullWait", "Ack", "ModAck", "Advance"},
                 MaxOps=6)
     return core_check(prop, tier, seed, t0, over, explore=[("data", 48, 2000), ("consumers", 64, 3000)], caps=(16, 1, 2),
-                      extra_scenarios=lambda quick, sd: cancel_scenarios(sd, kinds={"Pull", "Ack", "ModAck", "ModAck30"}, quick=quick),
+                      extra_scenarios=lambda quick, sd: cancel_scenarios(sd, kinds={"Pull", "Ack", "ModAck", "ModAck30"}, quick=quick)
+                      + stream_ctrl_scenarios(sd, quick),
                       thorough={"mc": dict(MaxOps=7, MaxMsgs=3)})
 
 
@@ -428,7 +475,8 @@ def plan_c05(prop, tier, seed, t0):
                     {"do": "drain", "c": 9},
                 ]})
         return out
-    return core_check(prop, tier, seed, t0, over, explore=[("data", 32, 1000)], extra_scenarios=extra,
+    return core_check(prop, tier, seed, t0, over, explore=[("data", 32, 1000), ("consumers", 16, 1000)],
+                      extra_scenarios=lambda quick, sd: extra(quick, sd) + stream_ctrl_scenarios(sd, quick),
                       thorough={"mc": dict(MaxOps=8, MaxMsgs=3, SubNames={S1, S2})})
 
 
@@ -601,6 +649,24 @@ def c12_scenarios(n_seeds, seed):
         out.append(scn("c12-C-%d" % k, [call(1, op="CreateTopic", name=T1), call(1, op="CreateSub", name=S1, topic=T1, ack=10),
             start("p", 3, op="Pull", sub=S1, max=1, ri=False), {"do": "settle"},
             call(1, op="DeleteSub", name=S1), {"do": "wait", "h": "p"}], seed=sd, cap=cap))
+        # H: the deletion under load - bursts larger than BOTH mailboxes (publishes for the topic,
+        # acks / pulls for the subscription) in flight while consumers wait: they are released all
+        # the same, and every racing request is answered
+        if k < 12:
+            burst = (3, 5, 20, 40)[k % 4]
+            steps = pre + [{"do": "sopen", "h": "s", "c": 2, "sub": S1, "max": 10},
+                           start("bp", 3, op="Pull", sub=S1, max=1, ri=False), {"do": "settle"}]
+            for j in range(burst):
+                steps.append(start("a%d" % j, 100 + j, op="Ack", sub=S1, acks=[{"lit": "%d" % (j + 1)}]))
+            for j in range(burst):
+                steps.append(start("pb%d" % j, 200 + j, op="Publish", topic=T1, msgs=[{"p": "h%d-%d" % (k, j)}]))
+            steps.append(start("d", 1, op="DeleteSub", name=S1))
+            for j in range(burst):
+                steps.append(start("m%d" % j, 300 + j, op=("ModAck" if j % 2 else "Pull"), sub=S1,
+                                   **(dict(acks=[{"lit": "1"}], secs=0) if j % 2 else dict(max=1, ri=True))))
+            steps += [{"do": "swait", "h": "s"}, {"do": "wait", "h": "bp"}, {"do": "waitall"},
+                      call(9, op="GetSub", name=S1), call(9, op="ListTopicSubs", topic=T1, size=0, token="")]
+            out.append(scn("c12-H-%d" % k, steps, seed=sd, cap=(1, 2, 16)[(k // 4) % 3]))
         # D: requests in flight while the deletion is processed.
         out.append(scn("c12-D-%d" % k, pre + [
             call(4, op="Pull", sub=S1, max=1, ri=True),
@@ -918,8 +984,8 @@ def c07_mc(work, quick, violations):
 
 def plan_c07(prop, tier, seed, t0):
     n = 24 if tier == "quick" else 400
-    return scenario_check(prop, tier, seed, t0, c07_scenarios(n, seed), mc=c07_mc,
-                          explore=[("mixed", 48, 2000), ("churn", 24, 1000)])
+    return scenario_check(prop, tier, seed, t0, c07_scenarios(n, seed) + stream_ctrl_scenarios(seed, tier == "quick"), mc=c07_mc,
+                          explore=[("mixed", 48, 2000), ("churn", 24, 1000), ("consumers", 24, 1000)])
 
 
 RELEVANT["C07"] = {"s.del0", "t.accept"}
@@ -978,6 +1044,31 @@ def c06_scenarios(n_seeds, seed):
             {"do": "gate", "name": "s.turn", "turns": -1},
             Q, {"do": "advance", "ms": 50}, Q,
             {"do": "abort", "h": "p2"}, {"do": "drain", "c": 9}], seed=sd, cap=cap))
+        # W10-W12: the availability event is handled by the actor DIRECTLY behind the consumer's empty
+        # pull, before the consumer's handler runs again (the event sits behind the pull request in
+        # the mailbox, or is the expiry that falls due in the same actor poll): whatever the handler
+        # does between "pulled nothing" and "waits" must not lose it
+        gate0, gate_open = {"do": "gate", "name": "s.turn", "turns": 0}, {"do": "gate", "name": "s.turn", "turns": -1}
+        consumer = (start("p", 3, op="Pull", sub=S1, max=1, ri=False) if k % 2 == 0
+                    else {"do": "sopen", "h": "s", "c": 3, "sub": S1, "max": 1})
+        finish_consumer = ([{"do": "wait", "h": "p"}] if k % 2 == 0 else [{"do": "sabandon", "h": "s"}])
+        out.append(scn("c06-W10-%d" % k, pre + [
+            call(2, op="Publish", topic=T1, msgs=[{"p": "w10-%d" % k}]), call(2, op="Pull", sub=S1, max=1, ri=True),
+            gate0, consumer, {"do": "settle"},
+            start("n", 4, op="ModAck", sub=S1, acks=[{"d": 1}], secs=0), {"do": "settle"},
+            gate_open, {"do": "settle"}, Q, {"do": "advance", "ms": 50}, Q] + finish_consumer + [Q, {"do": "drain", "c": 9}],
+            seed=sd, cap=cap))
+        out.append(scn("c06-W11-%d" % k, pre + [
+            gate0, consumer, {"do": "settle"},
+            start("pb", 4, op="Publish", topic=T1, msgs=[{"p": "w11-%d-%d" % (k, j)} for j in range(1 + k % 2)]), {"do": "settle"},
+            gate_open, {"do": "settle"}, Q, {"do": "advance", "ms": 50}, Q] + finish_consumer + [Q, {"do": "drain", "c": 9}],
+            seed=sd, cap=cap))
+        out.append(scn("c06-W12-%d" % k, pre + [
+            call(2, op="Publish", topic=T1, msgs=[{"p": "w12-%d" % k}]), call(2, op="Pull", sub=S1, max=1, ri=True),
+            {"do": "advance", "ms": 9000 + 100 * (k % 5)},
+            gate0, consumer, {"do": "settle"},
+            {"do": "advance", "ms": 1300}, gate_open, {"do": "settle"}, Q, {"do": "advance", "ms": 300}, Q]
+            + finish_consumer + [Q, {"do": "drain", "c": 9}], seed=sd, cap=cap))
         # W9: a backlog beyond 65535 messages (16-bit arithmetic in the pull path): several waiting
         # consumers, one huge publish; light recording, judged on the reported backlog sizes
         if k < 3:
